@@ -7,9 +7,10 @@
      item  := c | '\' c | c '-' c
 
    [valid_*] says which characters may be written raw and which escaped (an escaped character is never
-   an ASCII letter or digit: \d \w \n \1 ... are outside the dialect).  Inside a class this file is
-   deliberately conservative: "^" and "-" are only written escaped, so that no class depends on the
-   position of a raw "-" or "^". *)
+   an ASCII letter or digit: \d \w \n \1 ... are outside the dialect).  Inside a class a raw "^" may
+   not come first, and an item that begins with a raw "-" may come first, or after a range, or be the
+   single character "-" at the very end ([-a], [a-z-9], [a-]); a range may begin with an escaped
+   character ([\.-z]) but ends with a raw one. *)
 From Coq Require Import NArith List Bool.
 From JP Require Import Base PyStr Regex RegexSem.
 Import ListNotations.
@@ -19,7 +20,7 @@ Inductive quant := Q1 | QStar | QPlus | QOpt.
 
 Inductive citem :=
 | CChar (c : N) (escaped : bool)
-| CRange (lo hi : N).
+| CRange (lo : N) (lo_escaped : bool) (hi : N).
 
 Inductive ralt :=
 | Alt1 (s : rseq)
@@ -39,15 +40,46 @@ Definition one_of (c : N) (l : list N) : bool := existsb (N.eqb c) l.
 
 (* outside a class:  | ) ( [ . \ * + ? ^ $ { }  are not literal characters *)
 Definition raw_ok (c : N) : bool := negb (one_of c [124; 41; 40; 91; 46; 92; 42; 43; 63; 94; 36; 123; 125]).
-(* inside a class:  ] \ [ ^ -  are written escaped *)
-Definition class_raw_ok (c : N) : bool := negb (one_of c [93; 92; 91; 94; 45]).
+(* inside a class:  ] \ [  are written escaped; a range does not end in ] or \ *)
+Definition class_raw_ok (c : N) : bool := negb (one_of c [93; 92; 91]).
+Definition class_hi_ok (c : N) : bool := negb (one_of c [93; 92]).
 Definition esc_ok (c : N) : bool := negb (is_alnum c).
 
 Definition valid_item (i : citem) : bool :=
   match i with
   | CChar c true => esc_ok c
   | CChar c false => class_raw_ok c
-  | CRange lo hi => class_raw_ok lo && class_raw_ok hi && (lo <=? hi)
+  | CRange lo e hi => (if e then esc_ok lo else class_raw_ok lo) && class_hi_ok hi && (lo <=? hi)
+  end.
+
+(* the first character of the item's text, when it is written raw *)
+Definition raw_start (i : citem) : option N :=
+  match i with
+  | CChar c false => Some c
+  | CRange lo false _ => Some lo
+  | _ => None
+  end.
+Definition starts_with (d : N) (i : citem) : bool :=
+  match raw_start i with Some c => N.eqb c d | None => false end.
+Definition is_single (i : citem) : bool := match i with CChar _ _ => true | CRange _ _ _ => false end.
+
+(* [after_single]: the previous item is a single character, which a following "-x" would turn into a
+   range; there only the final "-" may follow *)
+Fixpoint valid_items (after_single : bool) (items : list citem) : bool :=
+  match items with
+  | [] => true
+  | i :: r =>
+      valid_item i &&
+      (if starts_with 45 i && after_single
+       then match i, r with CChar _ _, [] => true | _, _ => false end
+       else true) &&
+      valid_items (is_single i) r
+  end.
+
+Definition valid_class (neg : bool) (items : list citem) : bool :=
+  match items with
+  | [] => false
+  | i :: _ => (neg || negb (starts_with 94 i)) && valid_items false items
   end.
 
 Fixpoint valid_alt (x : ralt) : bool :=
@@ -65,7 +97,7 @@ with valid_atom (x : ratom) : bool :=
   | AChar c true => esc_ok c
   | AChar c false => raw_ok c
   | ADot => true
-  | AClass _ items => match items with [] => false | _ => forallb valid_item items end
+  | AClass neg items => valid_class neg items
   | AGroup _ b => valid_alt b
   end.
 
@@ -76,7 +108,7 @@ Definition char_text (c : N) (escaped : bool) : ustr := if escaped then [92; c] 
 Definition item_text (i : citem) : ustr :=
   match i with
   | CChar c e => char_text c e
-  | CRange lo hi => [lo; 45; hi]
+  | CRange lo e hi => char_text lo e ++ [45; hi]
   end.
 
 Definition quant_text (q : quant) : ustr :=
@@ -105,7 +137,7 @@ Definition regex_text : ralt -> ustr := alt_text.
 (* ---- the meaning ---- *)
 
 Definition item_range (i : citem) : N * N :=
-  match i with CChar c _ => (c, c) | CRange lo hi => (lo, hi) end.
+  match i with CChar c _ => (c, c) | CRange lo _ hi => (lo, hi) end.
 
 Definition quant_re (q : quant) (r : re) : re :=
   match q with Q1 => r | QStar => RStar r | QPlus => re_plus r | QOpt => re_opt r end.
